@@ -974,6 +974,25 @@ fn analyse_key(
                                     && o.ret > r.invoke
                                     && explicit_ts(&o.call).is_none_or(|ot| ot >= *t)
                             })
+                            || {
+                                // the store retires an expired generation with the wall clock as its
+                                // version (retire_expired_if_current); a write that read the expired
+                                // generation and then loses the race against that retirement is refused
+                                // against it - a removal of the same key, concurrent with this call,
+                                // carrying an equal-or-newer version
+                                let by_expiry = installs.iter().any(|i| {
+                                    i.owner.is_none()
+                                        && i.new.is_none()
+                                        && i.at >= r.invoke
+                                        && i.at < r.ret
+                                        && i.prev.as_ref().is_some_and(|p| p.expiry != 0 && p.expiry < i.wall)
+                                        && *t <= r.wall1
+                                });
+                                if by_expiry {
+                                    report.count("rejections_by_concurrent_expiry_retirement", 1);
+                                }
+                                by_expiry
+                            }
                     }
                     None => modified || concurrent_mod || states.iter().any(|s| s.as_ref().is_some_and(|s| s.ts == u64::MAX)),
                 };
